@@ -214,9 +214,29 @@ def listby_obligations(ctx, m):
         END = Store(s2.ghost['END'], xs.t - 1, srt.t)          # the last append happens after the loop: ghost end = n
         posts = listby_post(srt.t, srt.arrs[0], srt.arrs[1], xs, ids, END)
         for cname, goal in posts.items():
-            if cname == 'keys_strictly_increasing':
+            if cname in ('keys_strictly_increasing', 'rows_of_a_group_in_original_order'):
                 continue
             ctx.post('_listby.post.%s' % cname, ex.facts + s2.pc, goal)
+        # rows of a group in original order, for arbitrary g and j < p: both members carry the group key, so they tie on the key and
+        # the sort contract orders them by row number (hand-instantiated lemma instances keep the query small and stable)
+        gg, jj, pp = Ints('g!ord j!ord p!ord')
+        sk0, si0, kk0 = srt.arrs[0], srt.arrs[1], xs.arrs[0]
+        rlen0, rows0 = ids.arrs
+        a_, b_ = start_of(END, gg) + jj, start_of(END, gg) + pp
+        x_, y_, k_ = sk0[a_], sk0[b_], kk0[gg]
+        def at_(q, *args):          # instance of a universally quantified (already proved) postcondition
+            return z3.substitute_vars(q.body(), *reversed([a if z3.is_expr(a) else IntVal(a) for a in args]))
+        tile_q = posts['groups_tile_all_rows'].arg(1)
+        inst = [at_(posts['members_have_the_group_key'], gg, a_), at_(posts['members_have_the_group_key'], gg, b_),
+                at_(posts['rows_listed_in_sorted_order'], gg, jj), at_(posts['rows_listed_in_sorted_order'], gg, pp), at_(tile_q, gg),
+                posts['groups_tile_all_rows'].arg(0), at_(posts['ends_increase'], gg, xs.t - 1), at_(tile_q, 0), at_(posts['ends_increase'], 0, gg - 1),
+                Implies(And(0 <= a_, a_ < b_, b_ < srt.t), Or(cmpf(x_, y_) < 0, And(cmpf(x_, y_) == 0, si0[a_] < si0[b_]))),
+                cmpf(k_, y_) == -cmpf(y_, k_), cmpf(x_, y_) == -cmpf(y_, x_),
+                Implies(And(cmpf(x_, k_) <= 0, cmpf(k_, y_) <= 0), cmpf(x_, y_) <= 0),
+                Implies(And(cmpf(y_, k_) <= 0, cmpf(k_, x_) <= 0), cmpf(y_, x_) <= 0), cmpf(k_, x_) == -cmpf(x_, k_)]
+        base_h = [h for h in ex.facts + s2.pc if not z3.is_quantifier(h)]
+        ctx.post('_listby.post.rows_of_a_group_in_original_order', base_h + [0 <= gg, gg < xs.t, 0 <= jj, jj < pp, pp < rlen0[gg]] + inst,
+                 rows0[gg][jj] < rows0[gg][pp])
         # keys strictly increasing, for arbitrary g < h: key[g] = sk[END[g]-1] < sk[END[g]] <= sk[END[h]-1] = key[h]
         g_, h_ = Ints('g!ksi h!ksi')
         sk_, kk = srt.arrs[0], xs.arrs[0]
